@@ -24,6 +24,8 @@ CLAIMED = {
          "Coq proof: Collection.Get = Snapshot.Get on reachable states; tie: three read paths compared at every label"),
  "C11": ("proof", "Per-node theorems of the tree model: child operations never add to the parent's segments and a child-only batch leaves every parent read unchanged; merging, persisting, compacting (any splice point) and reopening keep every node's reads, child names and incarnation bookkeeping. The history-level statements (lifecycle, recreate-starts-empty, atomicity with the batch, survival through persistence/compaction/reopen) are decided by the lock-step correspondence of the tree model plus comparison of every path's reads with a reference tree; partial on the proof side (no end-to-end invariant over child histories yet).", "4 (C11)",
          "Coq proof (per-node view preservation, parent isolation) + lock-step correspondence over child trees against a reference tree"),
+ "C12": ("proof", "Footer-chain model of a data file: after an append round the walk back from the new current footer is the previous current footer followed by the old walk (C12_walk_after_append; by induction every round since the last compaction, newest first, then nil), compactions cut the chain, older footers are immutable, a revert appends an exact copy of the target that becomes current with the history still walkable behind it (C12_revert_is_exact) and later rounds build on it (C12_append_after_revert_builds_on_target). Tie: lock-step over random programs of rounds / walks / reverts / reopens comparing footer segment lists, offset chains and the content of every previous snapshot. Child collections inside revert targets are not yet exercised by this family.", "4 (C12)",
+         "Coq proof: footer-chain model; tie: lock-step over previous/revert programs"),
  "C13": ("proof", "The documented write-back protocol yields a legal lower-level update (C13_protocol_legal); overlay, drained, in-order (prefix) and re-offer-after-failure theorems for every schedule and failure pattern. Lock-step correspondence with a map-backed lower level driven by the protocol, with injected failures.", "4 (C13)",
          "Coq proof: protocol legality + prefix invariant; tie: lock-step correspondence with a map-backed lower level"),
  "C14": ("proof", "For every ascending key list, every quota / minimum-key-bytes setting (hence every hop and every truncated index) and every probe, the index window contains the key's position and its lower bound, and point lookups and range starts through the index equal the linear specification and the un-indexed search (C14_window_contains_key, C14_point_lookup_independent, C14_range_start_independent, C14_unindexed_search_correct; fuel sufficiency proved, no bound on sizes). Tie: function-level correspondence through verif exports (index shape, window, findKeyPos, findStartKeyInclusivePos) and API-level agreement of one directory opened under seven index settings.", "4 (C14)",
